@@ -94,6 +94,7 @@ func (s *stdSvc) primeHops() error {
 		L := s.model.transport(pr.entry, "udp")
 		s.model.learnRequest(L, ep.ip, am)
 		send := func(b []byte) error { return ep.sendUDP(l.Addr, l.UDPPort, b) }
+		s.in.expect([]byte(msg)) // (what earlier sub-tests left in flight is not the priming request)
 		if err := send([]byte(msg)); err != nil {
 			return err
 		}
